@@ -43,10 +43,10 @@ VARIABLES pseq, cseq, gate, done, buf,
           pwait, cwait,      \* processes parked on pcond / ccond
           pc, loc,           \* control state and locals of each process
           closes, bad,       \* completed Close calls of X; a consumed unit was not the expected one
-          hist
+          hist, prev         \* schedule so far; the state before the last step (schedule generation only)
 
 core == <<pseq, cseq, gate, done, buf, pmu, cmu, pwait, cwait, pc, loc, closes, bad>>
-vars == <<core, hist>>
+vars == <<core, hist, prev>>
 
 Idx(p) == p % Size
 MinOf(a, b) == IF a < b THEN a ELSE b
@@ -60,7 +60,7 @@ Init ==
   /\ pmu = "free" /\ cmu = "free" /\ pwait = {} /\ cwait = {}
   /\ pc = [p \in Procs |-> "idle"]
   /\ loc = [p \in Procs |-> L0]
-  /\ closes = 0 /\ bad = FALSE /\ hist = <<>>
+  /\ closes = 0 /\ bad = FALSE /\ hist = <<>> /\ prev = <<>>
 
 \* history entry: process, step kind, two arguments, and the projection the replayer compares
 \* after the step: the yield point the process stops at, cursors, which mutexes are free, result
@@ -388,13 +388,15 @@ CFinished == \/ /\ pc["C"] = "idle"
 XFinished == pc["X"] = "idle" /\ closes = NClose
 Finished == PFinished /\ CFinished /\ XFinished
 
+PrevUpd == prev' = IF Hist THEN core ELSE <<>>
 WakeEnabled == ENABLED PWake \/ ENABLED CWake
 Next == \/ /\ (Eager /\ WakeEnabled) => Wakes
            /\ (Hist => Len(hist) < MaxHist)
            /\ (PNext \/ CNext \/ XNext \/ Wakes)
+           /\ PrevUpd
         \/ (Finished /\ UNCHANGED vars)
 Spec == Init /\ [][Next]_vars
-FairSpec == Spec /\ WF_vars(PNext) /\ WF_vars(CNext) /\ WF_vars(XNext) /\ WF_vars(Wakes)
+FairSpec == Spec /\ WF_vars(PNext /\ PrevUpd) /\ WF_vars(CNext /\ PrevUpd) /\ WF_vars(XNext /\ PrevUpd) /\ WF_vars(Wakes /\ PrevUpd)
 
 -----------------------------------------------------------------------------
 \* C14
@@ -414,9 +416,10 @@ MutexOwnersSane == /\ pmu \in {"free"} \cup Procs /\ cmu \in {"free"} \cup Procs
 Terminates == <>[](Finished)
 CloseReturns == (done = 1) ~> (\A p \in Procs : pc[p] = "idle")
 
-\* schedule generation: one witness per transition (transition cover)
+\* schedule generation: one witness schedule per transition (state, step, state') of the graph:
+\* two steps that lead to the same state from different states are different transitions
 Last == IF hist = <<>> THEN "" ELSE hist[Len(hist)]
-CoverView == <<core, Last>>
+CoverView == <<core, prev, Last>>
 Post == [pseq |-> pseq, cseq |-> cseq, pmu |-> pmu, cmu |-> cmu, done |-> done,
          pret |-> loc["P"].ret, cret |-> loc["C"].ret, fin |-> Finished]
 Emit == hist = <<>> \/ PrintT(ToJson([h |-> hist, post |-> Post]))
